@@ -15,6 +15,39 @@ def fullHex (bs : Bytes) : String := toHexD bs
 
 def fuelFor (bs : Bytes) : Nat := 64 * bs.length + 4096
 
+/-- the value the schema bytes of `v` denote in the library's terms: every slice / byte string the wire
+carries is non-nil (mandatory fields, vector items, members of a present flag group); members of an
+absent group stay as they are. `forced`: index of a field of the top-level object whose flag bit is set
+on the wire whatever the values say (`c02.encz`). -/
+partial def wire (R : Registry) (forced : Option Nat) : Val → Val
+  | .bytes _ bs => .bytes false bs
+  | .vec _ items => .vec false (items.map (wire R none))
+  | .obj id fs =>
+    match R.find id with
+    | none => .obj id fs
+    | some d =>
+      if d.kind != .struct then .obj id fs else
+      let w0 := flagWord d.fields fs
+      let w := match (forced.bind fun k => d.fields[k]?).bind (·.flag) with
+        | some fl => w0 ||| (2 ^ fl.bit % 2 ^ 32)
+        | none => w0
+      .obj id (List.zipWith (fun f v => match f.flag with
+        | none => wire R none v
+        | some fl => if bitSet w fl.bit then wire R none v else v) d.fields fs)
+  | v => v
+
+def decLine (b v : String) (forced : Option Nat) : String :=
+  -- bytes built from the schema decode to the corresponding value (model of the decoder)
+  match fromHex? b, parse? v with
+  | some bs, some val =>
+    match decodeUnknown Mtv.Gen.registry (fun _ => none) (fuelFor bs) [] bs with
+    | .ok got =>
+      if showVal got == showVal (wire Mtv.Gen.registry forced val) then "ok"
+      else if showVal (erase got) == showVal (erase val) then "diff-nil" else "diff"
+    | .err _ => "err"
+    | .panic _ => "panic"
+  | _, _ => "bad-op"
+
 def handle : List String → String
   | ["c02.enc", _id, v] =>
     match parse? v with
@@ -25,15 +58,29 @@ def handle : List String → String
       | .err "notInSchema" => "enc=notInSchema"
       | .err _ => "enc=err"
       | .panic _ => "enc=panic"
-  | ["c02.dec", b, v] =>
-    -- bytes built from the schema decode to the corresponding value (model of the decoder)
-    match fromHex? b, parse? v with
-    | some bs, some val =>
-      match decodeUnknown Mtv.Gen.registry (fun _ => none) (fuelFor bs) [] bs with
-      | .ok got => if showVal (erase got) == showVal (erase val) then "ok" else "diff"
-      | .err _ => "err"
-      | .panic _ => "panic"
+  | ["c02.encz", _id, v, k] =>
+    -- the schema bytes of the value with the flag bit of value parameter `k` set although the value of
+    -- that parameter is the zero of its type: "present with the zero value"
+    match parse? v, k.toNat? with
+    | some (.obj id fs), some k =>
+      match findDef schema id with
+      | none => "enc=notInSchema"
+      | some d =>
+        let ps := valueParams d.params
+        match (ps[k]?).bind (·.cond) with
+        | none => "bad-op"
+        | some n =>
+          let flags := specFlags ps fs ||| (2 ^ n % 2 ^ 32)
+          match specParams schema flags (flagsPos d.params 0) ps fs with
+          | .ok body => s!"enc={fullHex (leBytes d.id 4 ++ body)}"
+          | .err _ => "enc=err"
+          | .panic _ => "enc=panic"
     | _, _ => "bad-op"
+  | ["c02.dec", b, v] => decLine b v none
+  | ["c02.dec", b, v, k] =>
+    match k.toNat? with
+    | some k => decLine b v (some k)
+    | none => "bad-op"
   | ["c02.str", b] =>
     match parseBytes? b with
     | some bs =>
